@@ -14,7 +14,7 @@ import (
 func init() {
 	register(&propDef{
 		id:      "C20",
-		explain: "Structural necessary conditions of 'redirects never leak credentials to an untrusted host, are bounded, and rewrite the method as RFC 9110 says': in the redirect loop (the function that re-issues a request through a clientDoer in a loop) every path from one Do to the next passes the credential-strip function, the hop counter increment and the exit when it exceeds the limit; the strip function deletes at least Authorization, Cookie, Cookie2, Proxy-Authorization, Proxy-Authenticate and WWW-Authenticate under the untrusted-host test; the trust anchor handed to it is computed before the loop from the URL string the caller gave and does not derive from storage owned by the reused Request (which every hop rewrites in place); the 303 branch drops the body and its framing headers and rewrites non-GET/HEAD to GET; 301/302 on POST rewrites to GET. Not decided: the host-trust predicate over all spellings of hosts; credentials embedded in URL userinfo.",
+		explain: "Structural necessary conditions of 'redirects never leak credentials to an untrusted host, are bounded, and rewrite the method as RFC 9110 says': in the redirect loop (the function that re-issues a request through a clientDoer in a loop) every path from one Do to the next passes the credential-strip function, the hop counter increment and the exit when it exceeds the limit; the strip function deletes at least Authorization, Cookie, Cookie2, Proxy-Authorization, Proxy-Authenticate and WWW-Authenticate under the untrusted-host test; the trust anchor handed to it is computed before the loop from the URL string the caller gave and does not derive from storage owned by the reused Request (which every hop rewrites in place); the 303 branch drops the body and its framing headers - through a deleter that matches stored names case-insensitively - and rewrites non-GET/HEAD to GET; the strip function's deleter runs its case-insensitive sweep before every return, whatever the normalisation flag says at that moment; 301/302 on POST rewrites to GET. Not decided: the host-trust predicate over all spellings of hosts; credentials embedded in URL userinfo.",
 		run:     runC20,
 	})
 }
@@ -302,6 +302,7 @@ func runC20(p *Prog, r *Report) {
 			}
 		}
 		dels := map[string]bool{}
+		var exactDels []string
 		hasReset, hasGet := false, false
 		for _, b := range seeOther {
 			for _, in := range b.Instrs {
@@ -320,6 +321,15 @@ func runC20(p *Prog, r *Report) {
 					if f := c.Common().StaticCallee(); f != nil && f.Name() == "Del" {
 						if s, ok := stringConst(c.Common().Args[1]); ok {
 							dels[strings.ToLower(s)] = true
+							exactDels = append(exactDels, s)
+						}
+					} else if f != nil && inModule(f) && f.Signature.Recv() == nil && len(c.Common().Args) == 2 && passesParamToDel(f, 1) {
+						// a deleter helper: (header, name)
+						if s, ok := stringConst(c.Common().Args[1]); ok {
+							dels[strings.ToLower(s)] = true
+							if !deletesAnyCase(f, 2) {
+								exactDels = append(exactDels, s)
+							}
 						}
 					}
 				}
@@ -351,7 +361,8 @@ func runC20(p *Prog, r *Report) {
 							continue
 						}
 						f := c.Common().StaticCallee()
-						isTeardown := isCallTo(c, resetBody) || (f != nil && f.Name() == "Del")
+						isTeardown := isCallTo(c, resetBody) || (f != nil && f.Name() == "Del") ||
+							(f != nil && inModule(f) && f.Signature.Recv() == nil && len(c.Common().Args) == 2 && passesParamToDel(f, 1))
 						if f != nil && f.Name() == "Reset" && recvTypeName(f) == "Args" {
 							if fa, isFA := c.Common().Args[0].(*ssa.FieldAddr); isFA && fieldName(fa.X.Type(), fa.Field) == "postArgs" {
 								isTeardown = true
@@ -391,6 +402,12 @@ func runC20(p *Prog, r *Report) {
 		}
 		r.Check("R4", name+": a 303 drops the body and its framing headers and rewrites the method to GET", hasReset && hasGet && dels["content-length"] && dels["content-type"] && dels["transfer-encoding"],
 			p.Pos(fn.Pos()), fmt.Sprintf("303 branch blocks: %d; ResetBody: %v; SetMethod(GET): %v; deleted: %s", len(seeOther), hasReset, hasGet, joinSorted(dels)))
+		// the framing headers of the dropped body are removed whatever spelling they are stored under: with special
+		// header handling and normalisation both off they sit in the generic list as the caller wrote them, where
+		// RequestHeader.Del (exact match) does not find 'content-length'
+		sort.Strings(exactDels)
+		r.Check("R4", name+": the 303 teardown removes the framing headers with a deleter that matches stored names case-insensitively", len(exactDels) == 0 && len(dels) >= 3, p.Pos(fn.Pos()),
+			"removed by exact name only: "+strings.Join(exactDels, ", ")+" - a 'content-length: 3' set by hand under DisableSpecialHeader + DisableNormalizing survives, and the body-less GET that follows the 303 announces a body the peer then waits for")
 		// 301/302 on POST -> GET
 		okPost := false
 		allCalls(fn, func(b *ssa.BasicBlock, c ssa.CallInstruction) {
@@ -498,7 +515,7 @@ func sweepOnEveryPath(p *Prog, r *Report, deleter *ssa.Function) {
 				return
 			}
 			n++
-			if !st.Has(bNorm) && !st.Has(bSweep) {
+			if !st.Has(bSweep) {
 				bad++
 				if wit == nil {
 					wit = x.Path(st)
@@ -508,6 +525,7 @@ func sweepOnEveryPath(p *Prog, r *Report, deleter *ssa.Function) {
 		},
 	})
 	x.Run(nil)
-	r.Check("R2", funcName(deleter)+": every return follows the sweep over the stored names, or a test that found names normalised", bad == 0 && n > 0 && !x.Aborted, p.Pos(pos),
-		fmt.Sprintf("%d of %d explored returns skip the case-insensitive sweep although normalisation may be off: with 'Authorization' and 'authorization' both stored, removing the canonical one leaves the other to be sent to the foreign host", bad, n), wit...)
+	_ = bNorm
+	r.Check("R2", funcName(deleter)+": every return follows the sweep over the stored names", bad == 0 && n > 0 && !x.Aborted, p.Pos(pos),
+		fmt.Sprintf("%d of %d explored returns skip the case-insensitive sweep: whether normalisation is enabled NOW says nothing about how a name was stored (SetCanonical, or Set while it was disabled) - 'authorization' stays and is sent to the foreign host", bad, n), wit...)
 }
